@@ -152,8 +152,10 @@ def run_one(seed, tape, opts):
     if tape.choose(2, "greeter") == 0:
         cc.install_greeter(w, tape)
     listeners_first = tape.choose(3, "listen_late") != 0
+    pausing = tape.choose(3, "pausing") == 0
+    w.reactive_pause = pausing
     wl = cc.Workload(w, tape, max_subs=3, max_ops=12,
-                     listen_late=not listeners_first)
+                     listen_late=not listeners_first, pausing=pausing)
     for s_ in w.sides:
         s_.reuse_endpoints = tape.choose(2, "reuse_ep") == 0
     faults = cc.L2Faults(w, tape, tape.choose(5, "fb") if
@@ -292,6 +294,8 @@ def run_one(seed, tape, opts):
         return True
     sim.run(8000, until=lambda: bool(viol) or complete())
     faults.heal()
+    w.reactive_pause = False
+    wl.resume_all()
     steps0, t0 = sim.steps, sim.now()
     r = sim.run(12000, until=lambda: bool(viol) or complete(), max_time=900)
     w.finish()
